@@ -201,7 +201,7 @@ def execute(root, opname, shim, mode, k=0, err=5):
         ok, detail = "err" not in rep, rep.get("detail", "")[:200]
         # what the buildpack's callbacks were shown (metadata, layer data) and the state that was reported belong to the outcome: an operation
         # that claims success under a fault must have shown and reported what it shows and reports without the fault
-        observed = json.dumps({"callbacks": rep.get("callbacks"), "state": rep.get("state"), "data": rep.get("data")}, sort_keys=True).replace(root, "<root>")
+        observed = json.dumps({"callbacks": rep.get("callbacks"), "state": rep.get("state"), "data": rep.get("data")}, sort_keys=True).replace(root, "<root>").replace(root.encode().hex(), b"<root>".hex())
     else:
         st, marker, stderr = lay.run(step, lay.detect_args() if step == "detect" else lay.build_args(), lay.env(), BP_SCRIPT, extra_env=env, preexec=(lambda: os.umask(um)))
         ok, detail = st == 0, "exit %d %s" % (st, stderr[-150:])
@@ -250,6 +250,12 @@ def task(arg):
         if snap != baseline:
             sh.violation("success-despite-fault:%s:%s:%s" % (opname, f["class"], callinfo), "%s: the operation reported success, but the directory differs from a fault-free run: %s"
                          % (what, vp.snap_diff(baseline, snap, 4)), case)
+            return sh.dict()
+        if ename in ("EIO", "EACCES", "ENOSPC"):
+            # "... fails with an I/O error, the call returns an error": a fault that is swallowed is not reported, even when this time nothing
+            # depended on the call (errnos outside the property's list may be ones the standard library legitimately works around, e.g.
+            # EPERM from copy_file_range: those are only required to leave the right directory behind)
+            sh.violation("fault-not-reported:%s:%s:%s" % (opname, f["class"], callinfo), "%s: the operation reported success (and left the directory a fault-free run leaves)" % what, case)
             return sh.dict()
         sh.count("tolerated_with_identical_result")
     else:
